@@ -27,8 +27,8 @@ LEAN_MODULES = ["MpfVerif.Props.C11"]
 PROPS_FILE = "MpfVerif/Props/C11.lean"
 GEN = []
 MANIFEST = {
-    "text": "Proof on a Lean model of the player store (one variable dictionary per player, Player.__setattr__ with its change event), of machine variables, and of an arbitrary list of persisting game-mode devices, each abstractly given by its player-variable key, fresh state, load rule, reaction to control events, reaction to the passing of one time unit and device-local state (for a timer: running, time to the next tick, time to the end of a timed pause), which only point into the current player's dictionary between mode start and mode stop: every request (variable set/add, any device control event, shot-group rotation, the passing of any amount of time, machine-variable set/add, player add, mode stop/start, ball drain with or without extra ball) leaves the whole dictionary of every player who is not up unchanged, single step and over whole histories - the one request that is meant to write to somebody else, a variable_player entry with an explicit `player:`, changes exactly the named player and its event carries that player's number; while no game mode runs the passing of time changes nothing at all and after a stop request / game end / a drain without automatic restart nothing points into any player (a timer in a timed pause cannot come back bound to the previous player); when a ball starts - or when the mode is started by request at any later time - every device presents load(state stored under its key by the player now up) or its fresh state - one theorem over the device list, keys pairwise distinct; a new game / an added player starts from the configured initial values and fresh device states regardless of what an earlier game left; machine-scope entries touch no player and nothing else touches machine variables; a variable assignment emits exactly one event with value, previous value, change and the owner's player number iff it changed or is new. The model is instantiated with the device kinds of the property (logic-block counter, accrual with its list-valued progress, sequence, each with reset/restart; shot and profile state, shot group rotation, persisted enable flag, achievements with and without restart-on-next-ball, a timer with start/stop/timed pause/pause/add/subtract/jump/reset/restart, start_running and end value) and tied to player.py / logic_blocks.py / shot.py / shot_group.py / enable_disable_mixin.py / achievement.py / timer.py / variable_player.py / game.py by a correspondence run on real 1-4 player games in virtual time on a 1/8 s grid (events with arguments, every player's dictionary incl. every device key, the timer's running flag and the machine variable after every op; turn changes inside pause windows; modes that start with the ball and modes started by request); per-player shadow dictionaries and shadow device states are kept independently by the harness, and object identity of every mutable per-player state object (logic-block states, the accrual's list, achievement entries) is compared across players after every op.",
-    "note": "Trusted: Lean kernel + standard axioms; the hand-written Model/Player.lean (validated only by the differential run; nothing is machine-translated); the concrete load/act/tick rules of the device kinds in the driver are validated by correspondence, the theorems hold for any such rules. Values in the model are immutable copies, so sharing of a mutable state object between players cannot be expressed there: on the implementation it is checked by object identity after every op. The own-turn behaviour of timer, accrual and sequence is judged by the model comparison only (the oracle adopts what the player who is up has stored); isolation, restore, fresh start and event arguments are judged by the oracle. Timer ticks live in a player variable but restart from start_value with every mode start (timer.py device_loaded_in_mode): modelled as a constant load rule. A held queue event during a turn change is modelled as instantaneous (the harness lets the extra time unit pass before it observes). Outside the model: ball holds and multiball locks (per-player locked-ball counts; they need ball devices), achievement groups, score queues (delayed adds block the ball end), shows of shots/achievements, float variables, tick-interval changes and count-down timers, variable_player conditions / blocks / subscriptions, the player monitor (compared with the events, counted only).",
+    "text": "Proof on a Lean model of the player store (one variable dictionary per player, Player.__setattr__ with its change event), of machine variables, and of an arbitrary list of persisting game-mode devices, each abstractly given by its player-variable key, fresh state, load rule, reaction to control events, reaction to the passing of one time unit and device-local state (for a timer: running, time to the next tick, time to the end of a timed pause), which only point into the current player's dictionary between mode start and mode stop: every request (variable set/add, any device control event, shot-group rotation, the passing of any amount of time, machine-variable set/add, player add, mode stop/start, ball drain with or without extra ball) leaves the whole dictionary of every player who is not up unchanged, single step and over whole histories - the one request that is meant to write to somebody else, a variable_player entry with an explicit `player:`, changes exactly the named player and its event carries that player's number; while no game mode runs the passing of time changes nothing at all and after a stop request / game end / a drain without automatic restart nothing points into any player (a timer in a timed pause cannot come back bound to the previous player); a stop of the game mode whose mode_<n>_stopping queue event is held by a handler (an outro) keeps the mode running bound to the player who is up, a ball end behind it changes nothing at all until the release - the game does not move on to the next player while the old mode is still active - and the release stops the mode and then lets the ball end take place exactly as for a stopped mode (hold invariant over all histories, restore after the release); every player_<var> event posted because a device wrote its state (the timer's tick variable at load, on add / subtract / jump / reset and on every tick) carries the number of the player who is up; when a ball starts - or when the mode is started by request at any later time - every device presents load(state stored under its key by the player now up) or its fresh state - one theorem over the device list, keys pairwise distinct; a new game / an added player starts from the configured initial values and fresh device states regardless of what an earlier game left; machine-scope entries touch no player and nothing else touches machine variables; a variable assignment emits exactly one event with value, previous value, change and the owner's player number iff it changed or is new. The model is instantiated with the device kinds of the property (logic-block counter, accrual with its list-valued progress, sequence, each with reset/restart; shot and profile state, shot group rotation, persisted enable flag, achievements with and without restart-on-next-ball, a timer with start/stop/timed pause/pause/add/subtract/jump/reset/restart, start_running and end value) and tied to player.py / logic_blocks.py / shot.py / shot_group.py / enable_disable_mixin.py / achievement.py / timer.py / variable_player.py / game.py by a correspondence run on real 1-4 player games in virtual time on a 1/8 s grid (events with arguments, the timer's player_<mode>_<timer>_tick events with value / previous value / change / player number, every player's dictionary incl. every device key, the timer's running flag and the machine variable after every op; stop requests held on mode_m1_stopping across drains with device events, waits and variable changes before the release; turn changes inside pause windows; modes that start with the ball and modes started by request); per-player shadow dictionaries and shadow device states are kept independently by the harness, and object identity of every mutable per-player state object (logic-block states, the accrual's list, achievement entries) is compared across players after every op.",
+    "note": "Trusted: Lean kernel + standard axioms; the hand-written Model/Player.lean (validated only by the differential run; nothing is machine-translated); the concrete load/act/tick rules of the device kinds in the driver are validated by correspondence, the theorems hold for any such rules. Values in the model are immutable copies, so sharing of a mutable state object between players cannot be expressed there: on the implementation it is checked by object identity after every op. The own-turn behaviour of timer, accrual and sequence is judged by the model comparison only (the oracle adopts what the player who is up has stored); isolation, restore, fresh start and event arguments are judged by the oracle. Timer ticks live in a player variable but restart from start_value with every mode start (timer.py device_loaded_in_mode): modelled as a constant load rule. A held mode_<n>_stopping queue event is released by an explicit request of the harness (never by a timer, so that no release races a tick at the same instant); while a ball end waits behind it the harness's variable_player mode has already ended, so variable_player requests are no-ops there (model line `wait 0`), and a game end behind a held stop is not generated. Device-variable events are compared argument by argument for the timer's tick variable; those of shots and the persisted enable flag are checked for their player number only (oracle). A held queue event during a turn change is modelled as instantaneous (the harness lets the extra time unit pass before it observes). Outside the model: ball holds and multiball locks (per-player locked-ball counts; they need ball devices), achievement groups, score queues (delayed adds block the ball end), shows of shots/achievements, float variables, tick-interval changes and count-down timers, variable_player conditions / blocks / subscriptions, the player monitor (compared with the events, counted only).",
     "technique": "Lean 4 theorems (frame lemmas over list updates, a fold lemma over the device list, induction over the op list) on a hand model + differential correspondence in virtual time and independent shadow-state / object-identity oracle on real multi-player games",
     "translated": False,
 }
@@ -40,7 +40,8 @@ RULE = ("a case = initial player_vars (int and string), balls per game 1-3, coun
         "pause / reset / restart), waits of 1-24 time units, direct set of int/str/mixed-type variables by item and by "
         "attribute, variable_player add/set, with explicit player 1-4 (existing or not), add_machine/set_machine, extra "
         "ball award, ball drain (plain, or with a mode start request at one of nine lifecycle events, optionally holding "
-        "the queue event), mode stop/start requests, turn changes inside the timer's pause window followed by waits, early "
+        "the queue event), mode stop/start requests, stop requests whose mode_m1_stopping queue event is held until an explicit "
+        "release (with drains, device events, waits and variable changes in between), turn changes inside the timer's pause window followed by waits, early "
         "game end, second game). non-trivial = at least two players and at least four ball starts; distinct = canonical "
         "JSON of (config, ops)")
 TRUSTED = ["modelled, not verified: the game mode's ball/turn rotation, mode start/stop at ball start/end, event queue "
@@ -48,7 +49,9 @@ TRUSTED = ["modelled, not verified: the game mode's ball/turn rotation, mode sta
            "the asyncio clock (time is an input of the model: one unit = 1/8 s, deadlines are float-exact on that grid)",
            "Model/Player.lean is hand-written; tied to mpf/core/player.py, mpf/devices/{logic_blocks,shot,shot_group,"
            "achievement,timer}.py, mpf/core/enable_disable_mixin.py, mpf/config_players/variable_player.py and "
-           "mpf/modes/game/code/game.py by correspondence"]
+           "mpf/modes/game/code/game.py by correspondence; the held stop (Mode.stop / _stopped / _finish_stop, "
+           "ModeController._ball_ending / _mode_stopped_callback) is modelled as two flags (hold, ending) and tied by "
+           "correspondence and source pins"]
 ASSUMPTIONS = ["player variables hold ints or strings (no floats, no containers other than the devices' own state objects); "
                "`add` is only applied to int variables",
                "a variable_player entry with an explicit `player:` is meant to change that player (frame excludes exactly "
@@ -56,7 +59,9 @@ ASSUMPTIONS = ["player variables hold ints or strings (no floats, no containers 
                "who is up - followed by the model, reported as an observation",
                "device keys are pairwise distinct and differ from `ball` / `extra_balls` (KeysOK)",
                "timers count up with a fixed tick interval; no two different timers of the machine are due at the same "
-               "instant (one timer, pause and tick never pending together)"]
+               "instant (one timer, pause and tick never pending together)",
+               "at most one handler holds mode_<n>_stopping and it releases it at an instant at which no timer is due; no "
+               "game end is requested behind a held stop"]
 
 INT_VARS = ["pa", "score", "nv"]          # nv is not configured: created on first use
 ADD_VALUES = [1, 10, -3, 0, 100]
@@ -90,6 +95,7 @@ DEVICES = [
 ]
 TIMER = 7
 DEV_KEYS = [d[1] for d in DEVICES]
+MODEL_DEV_EVENTS = ["m1_tm_tick"]      # device variables whose events are compared with the model argument by argument
 DEV_EVENT_VARS = ["shot_sh1", "shot_sh2", "shot_sh3", "shot_shf_enabled", "shot_sh1_enabled", "m1_tm_tick"]
 
 
@@ -239,6 +245,24 @@ def gen_ops(r, cfg=None):
                 ops.append(["wait", r.choice([1, 3, 7, 8, 12, 20])])
             ops.append(["mstart"])
 
+    def held_stop():
+        # a stop request for the game mode whose mode_m1_stopping queue event is held (an outro), mostly with the ball
+        # draining shortly afterwards - the hold outlasting the drain - and requests arriving before the release
+        ops.append(["mstoph"])
+        for _ in range(r.choice([0, 0, 1, 2])):
+            ops.append(["wait", r.choice([1, 2, 4, 5])] if r.random() < 0.4 else dev_op())
+        if r.random() < 0.75:
+            ops.append(["drain"] if r.random() < 0.8 else ["drainw", r.choice(POSITIONS), r.random() < 0.5])
+            for _ in range(r.choice([0, 1, 2, 3, 5])):
+                k3 = r.random()
+                ops.append(dev_op() if k3 < 0.6 else ["wait", r.choice([1, 3, 4, 8, 9])] if k3 < 0.8 else
+                           ["add", r.choice(INT_VARS), r.choice(ADD_VALUES)] if k3 < 0.87 else
+                           [r.choice(["set", "seta"]), r.choice(INT_VARS), r.choice(SET_VALUES)])
+        if r.random() < 0.9:
+            ops.append(["mrel"])
+            if not auto and r.random() < 0.7:
+                ops.append(["mstart"])
+
     for _ in range(n):
         k = r.random()
         if k < 0.30:
@@ -282,8 +306,12 @@ def gen_ops(r, cfg=None):
             ops.append(["extra"])
         elif k < 0.80:
             ops.append([r.choice(["mstop", "mstart", "mstart"])])
-        elif k < 0.94:
+        elif k < 0.895:
             turn_change()
+        elif k < 0.935:
+            held_stop()
+        elif k < 0.94:
+            ops.append(["mrel"])
         elif k < 0.96:
             ops.append(["addplayer"])
         elif k < 0.98:
@@ -309,14 +337,23 @@ def tok(v):
     return "?" + type(v).__name__
 
 
-def model_line(op, fired=None, held=False):
+VP_OPS = ("add", "vset", "addp", "setp", "madd", "mset")     # requests that go through the variable_player of mode `mv`
+
+
+def model_line(op, fired=None, held=False, ended=False):
     k = op[0]
+    if ended and k in VP_OPS:
+        return "wait 0"         # the mode holding the variable_player entries has ended with the ball: nobody listens
     if k in ("start", "addplayer", "drain", "endgame"):
         return k
     if k == "mstop":
         return "modestop"
     if k == "mstart":
         return "modestart"
+    if k == "mstoph":
+        return "modestophold"
+    if k == "mrel":
+        return "release"
     if k == "drainw":
         if fired in POS_AFTER:
             # the mode starts where the request arrives; a held queue event there is released one time unit later
@@ -374,6 +411,7 @@ class Run:
         self.vm = VMachine(main, modes={"m1": mode, "mv": mv}, game=True)
         self.events = []
         self.dev_events = []
+        self.dev_full = []
 
     def start(self):
         self.vm.start()
@@ -393,6 +431,9 @@ class Run:
         for name in DEV_EVENT_VARS:
             def h2(_n=name, **kwargs):
                 self.dev_events.append((_n, kwargs.get("value"), kwargs.get("player_num")))
+                if _n in MODEL_DEV_EVENTS:
+                    self.dev_full.append((_n, kwargs.get("value"), kwargs.get("prev_value"), kwargs.get("change"),
+                                          kwargs.get("player_num")))
             m.events.add_handler("player_" + name, h2, priority=10 ** 6)
         self.monitor_calls = []
         if self.cfg.get("monitor"):
@@ -425,6 +466,17 @@ class Run:
             m.events.add_handler(ev, lh, priority=2000000)
         self.mode_started_at = None
         self.in_pause_window = 0
+        self.hold_arm = False       # the next mode_m1_stopping queue event is to be held
+        self.held_q = None          # the held queue event (released by the op `mrel`, never by a timer: no same-instant race)
+        self.end_behind_hold = 0    # ball ends requested while the stop of the game mode was held
+        self.ending = False         # ... and one of them is waiting now
+
+        def stopping_hook(queue=None, **kwargs):
+            if self.hold_arm and queue is not None and self.held_q is None:
+                self.hold_arm = False
+                queue.wait()
+                self.held_q = queue
+        m.events.add_handler("mode_m1_stopping", stopping_hook, priority=2000000)
 
         def ms(**kwargs):
             self.mode_started_at = vm_now()
@@ -457,6 +509,7 @@ class Run:
         k = op[0]
         self.events = []
         self.dev_events = []
+        self.dev_full = []
         self.fired = None
         self.held = False
         self.binding = []
@@ -502,18 +555,34 @@ class Run:
                 vm.post("sg_rot")
             elif k == "mstop":
                 vm.post("stop_m1")
+            elif k == "mstoph":
+                # a stop request whose mode_m1_stopping queue event is held (an "outro") until the op `mrel`
+                if self.held_q is None:
+                    self.hold_arm = True
+                    vm.post("stop_m1")
+                    self.settle()
+                    self.hold_arm = False
+            elif k == "mrel":
+                self.ending = False
+                if self.held_q is not None:
+                    q, self.held_q = self.held_q, None
+                    q.clear()
             elif k == "mstart":
                 vm.post("start_m1")
             elif k in ("drain", "drainw"):
-                if k == "drainw":
+                if self.held_q is not None:
+                    self.end_behind_hold += 1       # the ball end has to wait for the held stop (no start request armed)
+                    self.ending = True
+                elif k == "drainw":
                     self.arm = (op[1], op[2])
                 for _ in range(m.game.balls_in_play):
                     r = tc.post_relay_event_with_params("ball_drain", balls=1)
                     m.playfield.balls -= r["balls"]
                     m.playfield.available_balls -= r["balls"]
             elif k == "endgame":
-                if m.game.player.extra_balls:
-                    return "skip"       # end_game() with an extra ball pending is C06's business (D20), not this property's
+                if m.game.player.extra_balls or self.held_q is not None:
+                    return "skip"       # end_game() with an extra ball pending is C06's business (D20), not this property's;
+                                        # nor is a game end behind a held mode stop
                 m.game.end_game()
                 self.settle()
                 m.playfield.balls = 0
@@ -600,9 +669,10 @@ class Run:
         on = self.cur() is not None and self.mode_on()
         rn = "".join("1" if (i == TIMER and self.m.timers["tm"].running) else "0" for i in range(len(DEVICES))) if on else "-"
         mv = self.m.variables.get_machine_var("mvar")
-        return "cur=%s mode=%s run=%s mv=%s ev=[%s] pl=[%s]" % (
+        return "cur=%s mode=%s run=%s mv=%s ev=[%s] dv=[%s] pl=[%s]" % (
             self.cur() or "-", (self.cur() if self.mode_on() else None) or "-", rn, "-" if mv is None else tok(mv),
             " ".join("%s:%s:%s:%s:%s" % (n, tok(v), tok(pv), tok(ch), num) for n, v, pv, ch, num in self.events),
+            " ".join("%s:%s:%s:%s:%s" % (n, tok(v), tok(pv), tok(ch), num) for n, v, pv, ch, num in self.dev_full),
             "|".join(pl))
 
 
@@ -655,6 +725,10 @@ class Oracle:
         self.counts = {}
         self.turns = 0
         self.mode_on = False    # the game mode runs (reference rule: from its start request to ball end / stop request)
+        self.hold = False       # a stop of the game mode was requested and its mode_m1_stopping queue event is held: the
+                                # mode keeps running (for the player who is up) until the release
+        self.end_pending = False    # a ball end was requested behind the held stop: it waits for the release
+        self.tick_seen = {}         # player index -> the timer's tick variable as last read from that player's dictionary
 
     def fail(self, sig, **d):
         self.bad.append((sig, d))
@@ -686,6 +760,33 @@ class Oracle:
         if crashed:
             self.fail(crashed + ":" + k, op=op)
             return
+        # ---- a held stop (reference rule): the mode runs on until the release; a ball end behind it waits and then
+        # happens as a whole at the release; stop / start requests meanwhile do nothing
+        if not run.players():
+            self.hold = self.end_pending = False
+        if k == "mstoph":
+            if self.mode_on and not self.hold and cur_before is not None:
+                self.hold = True
+                self.count("stop_held")
+            k = "nop"
+        elif k == "mrel":
+            if self.hold:
+                k = "drain" if self.end_pending else "mstop"
+                self.count("release_with_ball_end" if self.end_pending else "release_plain")
+                self.hold = self.end_pending = False
+            else:
+                k = "nop"
+        elif self.hold and k in ("drain", "drainw"):
+            self.end_pending = True
+            self.count("ball_end_behind_held_stop")
+            k = "nop"
+        elif self.hold and k in ("mstop", "mstart"):
+            k = "nop"
+        elif self.end_pending and k in VP_OPS:
+            self.count("variable_player_after_ball_end")
+            k = "nop"           # the mode `mv` with the variable_player entries ended with the ball (it is not held)
+        elif self.hold:
+            self.count("op_during_held_stop")
         players = run.players()
         cur = run.cur()
         expected_events = []
@@ -857,6 +958,30 @@ class Oracle:
                 self.fail("event:args", op=op, got=list(map(repr, e)), expected="ball +1 for the player whose turn starts")
             if k in ("start", "addplayer") and e[0] != "ball" and not (e[1] == e[2] and e[3] in (0, False)):
                 self.fail("event:args", op=op, got=list(map(repr, e)), expected="initial broadcast: value == prev_value")
+        self.count("timer_tick_events_compared_with_model", len(run.dev_full))
+        # ---- the timer's tick variable: every change posts one event with the new value, the previous value (0 for a
+        # new variable), their difference and the owner's number - the events of one request form a chain from what the
+        # player had stored before it to what is stored after it (the property's last sentence, for a device variable)
+        if not players:
+            self.tick_seen = {}
+        chains = {}
+        for name, value, pv, ch, num in run.dev_full:
+            chains.setdefault(num, []).append((value, pv, ch))
+        for q, p in enumerate(players):
+            before, after = self.tick_seen.get(q), p.vars.get("m1_tm_tick")
+            last, ok = (0 if before is None else before), True
+            for value, pv, ch in chains.get(q + 1, []):
+                if repr(pv) != repr(last) or repr(ch) != repr(value - pv):
+                    ok = False
+                last = value
+            if chains.get(q + 1):
+                ok = ok and repr(last) == repr(after)
+            elif before != after:
+                ok = False              # the stored value changed (or the variable is new) and no event said so
+            if not ok:
+                self.fail("event:device-var-args", op=op, variable="m1_tm_tick", player=q + 1, stored_before=before,
+                          stored_after=after, events=[list(map(repr, e)) for e in chains.get(q + 1, [])])
+            self.tick_seen[q] = after
         ok_nums = {cur} | ({cur_before} if k == "drainw" and run.fired in POS_BEFORE else set())
         for name, value, num in run.dev_events:
             if cur is not None and num not in ok_nums:
@@ -897,6 +1022,7 @@ def execute_unguarded(cfg, ops, model):
             cur0 = run.cur()
             pl0 = run.players()
             ball0 = (cur0, pl0[cur0 - 1].vars.get("ball"), pl0[cur0 - 1].vars.get("extra_balls", 0)) if cur0 else None
+            ended0 = run.ending
             cr = run.act(op)
             if cr == "skip":
                 continue
@@ -910,7 +1036,7 @@ def execute_unguarded(cfg, ops, model):
                     stats.get("start_" + ("before" if run.fired in POS_BEFORE else "window" if run.fired in POS_WINDOW
                                           else "after" if run.fired else "not_reached"), 0) + 1
             if model is not None:
-                line = model_line(op, run.fired, run.held)
+                line = model_line(op, run.fired, run.held, ended0)
                 comps.append((line, run.obs(), model.ask(line)))
         stats["turns"] = orc.turns
         stats["counts"] = orc.counts
